@@ -384,14 +384,126 @@ var fixedRegForms = map[string]bool{"al": true, "ax": true, "eax": true, "rax": 
 var regClassTypes = map[string]bool{"r8": true, "r16": true, "r32": true, "r64": true}
 
 func ruleM7(c *Ctx) {
-	c.doc("M7", "in the strict and relaxed form matchers a form operand that names one register (al, ax, eax, cl, dx) accepts a register-class query (r8/r16/r32) only under a test that the mnemonic is IN or OUT, whose emitters check the register name again; anywhere else the name is never looked at and e.g. SHL AX,BL would be emitted as SHL AX,CL")
+	c.doc("M7", "in the strict and relaxed form matchers (and the helpers they call) a form operand that names one register (al, ax, eax, cl, dx) accepts a register-class query (r8/r16/r32) only under a test that the mnemonic is IN or OUT, whose emitters check the register name again; anywhere else the name is never looked at and e.g. SHL AX,BL would be emitted as SHL AX,CL")
 	n := 0
+	p := c.L.Pkg("pkg/asmdb")
+	if p == nil {
+		c.anchorMissing("M7", "pkg/asmdb")
+		return
+	}
+	info := p.TypesInfo
+	// single := definitions of locals, package-wide (objects are unique)
+	defs := map[types.Object]ast.Expr{}
+	for _, file := range p.Syntax {
+		ast.Inspect(file, func(x ast.Node) bool {
+			if as, ok := x.(*ast.AssignStmt); ok && as.Tok == token.DEFINE && len(as.Lhs) == len(as.Rhs) {
+				for i, l := range as.Lhs {
+					if id, ok := l.(*ast.Ident); ok && info.Defs[id] != nil {
+						defs[info.Defs[id]] = as.Rhs[i]
+					}
+				}
+			}
+			return true
+		})
+	}
+	// ioOnly: the expression can only be true when some string equals "IN" or "OUT"
+	var ioOnly func(e ast.Expr, depth int) bool
+	ioOnly = func(e ast.Expr, depth int) bool {
+		if depth > 6 {
+			return false
+		}
+		switch x := ast.Unparen(e).(type) {
+		case *ast.BinaryExpr:
+			switch x.Op {
+			case token.EQL:
+				for _, side := range []ast.Expr{x.X, x.Y} {
+					if s, ok := constStr(info, side); ok && (s == "IN" || s == "OUT") {
+						return true
+					}
+				}
+			case token.LOR:
+				return ioOnly(x.X, depth+1) && ioOnly(x.Y, depth+1)
+			case token.LAND:
+				return ioOnly(x.X, depth+1) || ioOnly(x.Y, depth+1)
+			}
+		case *ast.Ident:
+			if d, ok := defs[info.Uses[x]]; ok {
+				return ioOnly(d, depth+1)
+			}
+		}
+		return false
+	}
+	// guardedAt: the node at the top of the stack is evaluated only under an IN/OUT test: inside the
+	// body of an if / the clause of a tagless switch with such a condition, or to the right of
+	// such a conjunct in an && chain
+	guardedAt := func(stack []ast.Node) bool {
+		for i := len(stack) - 2; i >= 0; i-- {
+			child := stack[i+1]
+			switch anc := stack[i].(type) {
+			case *ast.IfStmt:
+				if child == ast.Node(anc.Body) && ioOnly(anc.Cond, 0) {
+					return true
+				}
+			case *ast.CaseClause:
+				inBody := false
+				for _, st := range anc.Body {
+					if ast.Node(st) == child {
+						inBody = true
+					}
+				}
+				if inBody && len(anc.List) > 0 {
+					all := true
+					for _, e := range anc.List {
+						if !ioOnly(e, 0) {
+							all = false
+						}
+					}
+					// only for tagless switches (conditions); a tagged switch lists values
+					if all && i >= 2 {
+						if sw, ok := stack[i-2].(*ast.SwitchStmt); ok && sw.Tag == nil {
+							return true
+						}
+					}
+				}
+			case *ast.BinaryExpr:
+				if anc.Op == token.LAND && child == ast.Node(anc.Y) && ioOnly(anc.X, 0) {
+					return true
+				}
+			}
+		}
+		return false
+	}
+	type unitFn struct {
+		fd     *ast.FuncDecl
+		helper bool
+	}
+	var unit []unitFn
+	seenFn := map[*ast.FuncDecl]bool{}
 	for _, fn := range []string{"matchOperandsStrict", "matchOperandsRelaxed"} {
-		fd, p := c.L.FuncDecl("pkg/asmdb", fn)
+		fd, _ := c.L.FuncDecl("pkg/asmdb", fn)
 		if fd == nil {
 			c.anchorMissing("M7", "pkg/asmdb."+fn)
 			continue
 		}
+		if !seenFn[fd] {
+			seenFn[fd] = true
+			unit = append(unit, unitFn{fd, false})
+		}
+		// helpers of the same package the matcher calls (one level)
+		ast.Inspect(fd.Body, func(x ast.Node) bool {
+			if call, ok := x.(*ast.CallExpr); ok {
+				if f, ok := calleeOf(info, call).(*types.Func); ok && f.Pkg() == p.Types {
+					if hd := funcDeclOf(p, f); hd != nil && hd.Body != nil && hd.Recv == nil && !seenFn[hd] && !strings.HasPrefix(hd.Name.Name, "matchOperands") {
+						seenFn[hd] = true
+						unit = append(unit, unitFn{hd, true})
+					}
+				}
+			}
+			return true
+		})
+	}
+	for _, u := range unit {
+		fd := u.fd
 		var stack []ast.Node
 		ast.Inspect(fd.Body, func(x ast.Node) bool {
 			if x == nil {
@@ -403,55 +515,62 @@ func ruleM7(c *Ctx) {
 			if !ok || be.Op != token.LAND {
 				return true
 			}
-			l, okl := be.X.(*ast.BinaryExpr)
-			r, okr := be.Y.(*ast.BinaryExpr)
+			l, okl := ast.Unparen(be.X).(*ast.BinaryExpr)
+			r, okr := ast.Unparen(be.Y).(*ast.BinaryExpr)
 			if !okl || !okr || l.Op != token.EQL || r.Op != token.EQL {
 				return true
 			}
 			var formLit, queryLit string
 			for _, cmp := range []*ast.BinaryExpr{l, r} {
-				id, ok := cmp.X.(*ast.Ident)
-				if !ok {
-					continue
-				}
-				s, isK := constStr(p.TypesInfo, cmp.Y)
-				if !isK {
-					continue
-				}
-				switch id.Name {
-				case "formType":
-					formLit = s
-				case "queryType":
-					queryLit = s
+				for _, side := range []ast.Expr{cmp.X, cmp.Y} {
+					if s, isK := constStr(info, side); isK {
+						if fixedRegForms[s] {
+							formLit = s
+						}
+						if regClassTypes[s] {
+							queryLit = s
+						}
+					}
 				}
 			}
-			if !fixedRegForms[formLit] || !regClassTypes[queryLit] {
+			if formLit == "" || queryLit == "" {
 				return true
 			}
 			n++
-			guarded := false
-			for _, anc := range stack {
-				iff, ok := anc.(*ast.IfStmt)
-				if !ok || be.Pos() < iff.Body.Pos() {
-					continue
-				}
-				lits, onlyIO := map[string]bool{}, true
-				ast.Inspect(iff.Cond, func(y ast.Node) bool {
-					if cmp, ok := y.(*ast.BinaryExpr); ok && cmp.Op == token.EQL {
-						if s, isK := constStr(p.TypesInfo, cmp.Y); isK {
-							lits[s] = true
-							if s != "IN" && s != "OUT" {
-								onlyIO = false
+			guarded := guardedAt(stack)
+			if !guarded && u.helper {
+				// a helper: every use of it is a call made under an IN/OUT test
+				fnObj := info.Defs[fd.Name]
+				uses, okAll := 0, true
+				for _, file := range p.Syntax {
+					var st2 []ast.Node
+					ast.Inspect(file, func(y ast.Node) bool {
+						if y == nil {
+							st2 = st2[:len(st2)-1]
+							return true
+						}
+						st2 = append(st2, y)
+						id, ok := y.(*ast.Ident)
+						if !ok || info.Uses[id] != fnObj {
+							return true
+						}
+						uses++
+						// the identifier is the Fun of a call: judge the call expression
+						if len(st2) >= 2 {
+							if call, ok := st2[len(st2)-2].(*ast.CallExpr); ok && call.Fun == ast.Expr(id) {
+								if !guardedAt(st2[:len(st2)-1]) {
+									okAll = false
+								}
+								return true
 							}
 						}
-					}
-					return true
-				})
-				if len(lits) > 0 && onlyIO {
-					guarded = true
+						okAll = false // used as a value
+						return true
+					})
 				}
+				guarded = uses > 0 && okAll
 			}
-			c.check(guarded, "M7", fmt.Sprintf("%s|%s accepts %s", fn, formLit, queryLit), c.L.Pos(be.Pos()),
+			c.check(guarded, "M7", fmt.Sprintf("%s|%s accepts %s", fd.Name.Name, formLit, queryLit), c.L.Pos(be.Pos()),
 				fmt.Sprintf("form type %q accepts any %s register for every mnemonic: the register actually written is never compared with %s", formLit, queryLit, strings.ToUpper(formLit)))
 			return true
 		})
@@ -1164,6 +1283,48 @@ func ruleF8o(c *Ctx) {
 			}
 			terms[t]++
 		}
+	}
+	// the same accumulation through a local closure `add := func(…, size int) { total += size }`:
+	// every call of the closure adds its size argument
+	for _, anon := range f.AnonFuncs {
+		pi := -1
+		for _, b := range anon.Blocks {
+			for _, in := range b.Instrs {
+				bo, ok := in.(*ssa.BinOp)
+				if !ok || bo.Op != token.ADD || !isIntType(bo.Type()) {
+					continue
+				}
+				for _, pair := range [][2]ssa.Value{{bo.X, bo.Y}, {bo.Y, bo.X}} {
+					prm, isP := pair[0].(*ssa.Parameter)
+					ld, isL := pair[1].(*ssa.UnOp)
+					if !isP || !isL || ld.Op != token.MUL {
+						continue
+					}
+					if _, isFV := ld.X.(*ssa.FreeVar); !isFV {
+						continue
+					}
+					for i, ap := range anon.Params {
+						if ap == prm {
+							pi = i
+						}
+					}
+				}
+			}
+		}
+		if pi < 0 {
+			continue
+		}
+		callsIn(f, func(ci ssa.CallInstruction) {
+			mc, ok := ci.Common().Value.(*ssa.MakeClosure)
+			if !ok || mc.Fn != ssa.Value(anon) || pi >= len(ci.Common().Args) {
+				return
+			}
+			if t := componentOf(ci.Common().Args[pi], 0); t != "" {
+				terms[t]++
+			} else {
+				unknown = append(unknown, valName(ci.Common().Args[pi]))
+			}
+		})
 	}
 	want := []string{"Rex", "Vex", "Opcode", "Modrm", "Immediate", "DataOffset", "CodeOffset"}
 	for _, w := range want {
